@@ -37,3 +37,37 @@ Example C06_accepts_somewhere :
   gen_check FRect 3 0 4 [ [[(0,0);(20,0);(20,20);(0,20)]]; [[(5,5);(20,5);(20,15);(5,15)]]; [rect_path 5 5 30 15] ]%Z
             ([[(0,0);(20,0);(20,20);(0,20)]] ++ [rect_path 5 5 30 15])%Z [] [0; 5; 15; 20]%Q = true.
 Proof. vm_compute. reflexivity. Qed.
+
+(* the leaf decisions of the rectangle clipper, as TRANSLATED FROM /repo's CURRENT SOURCE on every run
+   (Gen/RectLeaf_gen.v, rect_clip.go: getLocation, headingClockwise, getAdjacentLocation, areOpposites,
+   getEdgesForPt), with locations as their integer codes (Left 0, Top 1, Right 2, Bottom 3, Inside 4) *)
+From Coq Require Import String.
+From Clip Require Import Gen.RectLeaf_gen Model.RectLeafProofs.
+Theorem C06_getLocation :
+  forall l t r b x y, (l <= r)%Z -> (t <= b)%Z ->
+    let '(loc, ok) := gen_getLocation b l r t x y in
+    (0 <= loc <= 4)%Z /\
+    (ok = false <-> on_boundary l t r b x y) /\
+    (ok = false -> (loc = LLeft /\ x = l) \/ (loc = LRight /\ x = r) \/ (loc = LTop /\ y = t) \/ (loc = LBottom /\ y = b)) /\
+    (ok = true ->
+       (loc = LInside <-> ((l < x < r)%Z /\ (t < y < b)%Z)) /\
+       (loc = LLeft <-> (x < l)%Z) /\ (loc = LRight <-> (x > r)%Z) /\
+       (loc = LTop <-> ((l <= x <= r)%Z /\ (y < t)%Z)) /\ (loc = LBottom <-> ((l <= x <= r)%Z /\ (y > b)%Z))).
+Proof. exact getLocation_spec. Qed.
+Theorem C06_location_cycle :
+  forall loc, side loc ->
+    side (gen_getAdjacentLocation loc true) /\ side (gen_getAdjacentLocation loc false) /\
+    gen_headingClockwise loc (gen_getAdjacentLocation loc true) = true /\
+    gen_headingClockwise (gen_getAdjacentLocation loc false) loc = true /\
+    gen_getAdjacentLocation (gen_getAdjacentLocation loc true) false = loc /\
+    gen_getAdjacentLocation (gen_getAdjacentLocation loc false) true = loc.
+Proof. exact getAdjacentLocation_spec. Qed.
+Theorem C06_heading_and_opposites :
+  forall p c, side p -> side c ->
+    (gen_headingClockwise p c = true <-> (p = 0 /\ c = 1) \/ (p = 1 /\ c = 2) \/ (p = 2 /\ c = 3) \/ (p = 3 /\ c = 0))%Z /\
+    (gen_areOpposites p c = true <-> (p = 0 /\ c = 2) \/ (p = 2 /\ c = 0) \/ (p = 1 /\ c = 3) \/ (p = 3 /\ c = 1))%Z.
+Proof. intros p c Hp Hc. split; [apply headingClockwise_spec | apply areOpposites_spec]; assumption. Qed.
+Theorem C06_location_codes :
+  location_codes = [("Bottom"%string, 3%Z); ("Inside"%string, 4%Z); ("Left"%string, 0%Z); ("Right"%string, 2%Z); ("Top"%string, 1%Z)].
+Proof. exact location_codes_are. Qed.
+Print Assumptions C06_getLocation.
